@@ -24,7 +24,7 @@ ASSUMPTIONS = [
     "secrecy is decided functionally (stored bytes equal the reference ciphertext; no secret needle occurs); cryptographic strength of zero-IV CBC is out of scope",
     "encrypted components are compared on the declared length only (stored/returned blob may be zero-padded)",
 ]
-REQUIRED_CLASSES = ["len%16!=0", "trailing00>=1", "all-zero", "framing=bec2", "framing=bf3", "via=set_config", "cipher=unregistered", "cipher=raising", "trailing00>=16", "has-needles", "retry-after-failure"]
+REQUIRED_CLASSES = ["len%16!=0", "trailing00>=1", "all-zero", "framing=bec2", "framing=bf3", "via=set_config", "cipher=unregistered", "cipher=raising", "trailing00>=16", "has-needles", "retry-after-failure", "pre-existing-plain-config"]
 
 ENC_DESC = [(0xC3, b"\x03"), (0xC2, b"\x02"), (0xC1, b"\x03"), (0xC5, b"\x01")]
 
@@ -62,8 +62,12 @@ def _build(case):
     plain = [sut.mk_component(c) for c in case.get("plain", [])]
     f = sut.Bf3File(dict(case.get("comments", [])), plain)
     if case["via"] == "set_config":
+        if case.get("factory_config"):
+            # the file already holds a PLAIN (unflagged) configuration-type component, e.g. a factory configuration
+            f.components.insert(case.get("pos", 0) % (len(plain) + 1), sut.Bf3Component({0xC3: b"\x03", 0xC1: b"\x03"}, case["factory_config"]))
         f.set_config(S.config_to_dict(case["config"]), case.get("extra", []))
-        comp = f.components[-1]
+        claiming = [c for c in f.components if dict(c.description).get(0xC2) == b"\x02"]
+        comp = claiming[-1] if claiming else f.components[-1]
     else:
         comp = sut.Bf3Component(dict(ENC_DESC), case["content"], case.get("actual_len"), encrypt_by_session_key=True)
         f.components.insert(case.get("pos", 0) % (len(plain) + 1), comp)
@@ -75,7 +79,11 @@ def check(case, rec):
     framing = case["framing"]
     rec.cls("framing=" + framing)
     rec.cls("via=" + case["via"])
+    if case.get("factory_config"):
+        rec.cls("pre-existing-plain-config")
     f, comp = _build(case)
+    if not comp.encrypt_by_session_key:
+        raise Violation("set_config left a configuration component (tags %r) that is NOT marked for session-key encryption" % ({hex(k): bytes(v).hex() for k, v in comp.description.items()},))
     content = bytes(comp.blob)
     declared = comp.actual_len
     tz = S.trailing_zeros(content)
@@ -267,7 +275,8 @@ def strat(tier):
     mx = 600 if tier == "quick" else 6000
     direct = st.fixed_dictionaries(dict(via=st.just("direct"), content=S.payload(mx), pos=st.integers(0, 3), **_case_common(tier))).flatmap(
         lambda c: S.actual_len_for(len(c["content"])).map(lambda a: dict(c, actual_len=a)))
-    cfg = st.fixed_dictionaries(dict(via=st.just("set_config"), config=S.config_entries(12, 100),
+    cfg = st.fixed_dictionaries(dict(via=st.just("set_config"), config=S.config_entries(12, 100), pos=st.integers(0, 3),
+                                     factory_config=st.one_of(st.none(), st.none(), st.binary(min_size=1, max_size=40)),
                                      extra=st.lists(st.binary(min_size=1, max_size=60), max_size=2), **_case_common(tier)))
     return st.one_of(direct, cfg)
 
